@@ -179,8 +179,16 @@ func (h *AnnouncePingHandler) Handle(w *mgr.WorkerCtx, f frame.Frame, hdr *PingH
 		rte.Source = m.RouteSourceGossip
 		rte.Expires = msg.Expires
 	}
-	// Add to table.
-	added, err := h.r.table.AddRoute(rte)
+	// Add to table - but only while the link the announcement came in on is
+	// still registered: the link may have been closed and removed (together
+	// with all routes via it) while this announcement was waiting in the queue.
+	var added bool
+	if !h.r.instance.Peering().WithRegisteredLink(recvLink, func() {
+		added, err = h.r.table.AddRoute(rte)
+	}) {
+		// Receive link is gone, drop announcement.
+		return nil
+	}
 	switch {
 	case err != nil:
 		w.Warn(
